@@ -408,8 +408,11 @@ def _fresh_ctors(ck, prog):
             continue
         for c in ast.walk(f.node):
             if isinstance(c, ast.Call) and prog.class_of_ctor(f.mod, c) == "Sequence":
-                extra = [unparse(a) for a in c.args[1:]] + ["%s=%s" % (k.arg, unparse(k.value)) for k in c.keywords if k.arg != "validateSeq"]
-                ck.ob("CTOR-fresh", f.mod.relpath + ":" + f.qual, not extra, expected="Sequence(<derived string>) with no carried-over state",
+                from props.common import carried_state
+                cs = carried_state(prog, f, c)
+                ck.shape(not any(k == "unknown" for k, _ in cs), "%s: what Sequence(...) is handed besides the string (%s)" % (f.name, [t for _, t in cs]), f.loc(c))
+                extra = [t for k, t in cs if k in ("dmax", "alias")]
+                ck.ob("CTOR-fresh", f.mod.relpath + ":" + f.qual, not extra, expected="Sequence(<derived string>) with no carried-over state (a consistently patched copy of the charge pattern excepted)",
                       found=unparse(c)[:100], slot="ctor@%s" % unparse(c.args[0])[:30] if c.args else "ctor", where=f.loc(c),
                       note="a carried dmax is valid only for rearrangements of the same composition (the moves)")
                 n += 1
